@@ -253,8 +253,11 @@ class CompatScanner:
         if tagname in self.allowed_tags:
             res.append(token)
         else:
+            # shown as text; markers of protected regions inside it are spelled out again
+            # (a marker inside a text token would never be resolved)
             res.append(Token(type=Token.t_text, start=start,
-                             len=token_length, source=text))
+                             len=token_length, source=text,
+                             text=sub_str if uniquifier else None))
 
     def __call__(self, text, uniquifier=None):
         if self.allowed_tags is None:
